@@ -81,6 +81,7 @@ fn dispatch(fam: &str, p: &Params) -> String {
         "strings" => strings_case(p),
         "ifturi" => ifturi_case(p),
         "iftapply" => iftapply_case(p),
+        "gsubnest" => gsubnest_case(p),
         _ => "bad-request".into(),
     }
 }
@@ -356,10 +357,43 @@ fn colr_v0(n: usize) -> Vec<u8> {
     t
 }
 
+/// one gradient paint (format 4 .. 9) with a colour line of `stops` stops (MAX_INLINE_COLOR_STOPS = 32)
+fn colr_gradient(fmt: u8, stops: usize, extend: u8, same_offset: bool) -> Vec<u8> {
+    let mut b = ColrBuilder { paints: vec![], base: vec![(0, 0)], layers: vec![] };
+    let p = &mut b.paints;
+    let var = fmt % 2 == 1;
+    let body = match fmt {
+        4 | 5 | 6 | 7 => 12,
+        _ => 8,
+    };
+    let size = 4 + body + if var { 4 } else { 0 };
+    p.push(fmt);
+    be24(p, size as u32);
+    for k in 0..body / 2 {
+        be16(p, [0u16, 10, 500, 0x0100, 20, 700][k % 6]);
+    }
+    if var {
+        be32(p, 0);
+    }
+    p.push(extend);
+    be16(p, stops.min(65535) as u16);
+    for i in 0..stops.min(65535) {
+        let off = if same_offset { 0x2000 } else { ((i * 0x4000) / stops.max(1)) as u16 };
+        be16(p, off);
+        be16(p, (i % 3) as u16);
+        be16(p, 0x4000);
+        if var {
+            be32(p, if i % 2 == 0 { 0xFFFF_FFFF } else { i as u32 });
+        }
+    }
+    b.table()
+}
+
 fn colr_case(p: &Params) -> String {
     let kind = p.s("kind");
     let depth = p.n("depth");
     let colr = match kind {
+        "gradient" => colr_gradient(p.n("fmt") as u8, depth, p.n("extend") as u8, p.n("same") == 1),
         "wide" => colr_wide(depth, p.n("levels").max(1)),
         "v0" => colr_v0(depth),
         _ => colr_chain(kind, depth, p.n("cyc") == 1),
@@ -414,6 +448,15 @@ pub fn colr_jobs(thorough: bool) -> Vec<Job> {
             }
         }
     }
+    // the same chains at 10^3 on a 256 KiB stack: recursion linear in the input shows with modest inputs
+    for kind in COLR_KINDS.iter() {
+        for d in [LIMIT - 1, 1000, 3000] {
+            if (*kind == "glyph" || *kind == "compboth") && d < LIMIT {
+                continue;
+            }
+            v.push(job(name, format!("stress colr kind={kind} depth={d} cyc=0 stack=256")));
+        }
+    }
     for (n, levels) in [(1, 1), (254, 1), (255, 1), (256, 1), (100_000, 1), (255, 2)] {
         v.push(job(name, format!("stress colr kind=wide depth={n} levels={levels}")));
     }
@@ -422,6 +465,18 @@ pub fn colr_jobs(thorough: bool) -> Vec<Job> {
     }
     for n in [0, 1, 65534, 65535] {
         v.push(job(name, format!("stress colr kind=v0 depth={n}")));
+    }
+    for fmt in 4..=9 {
+        for stops in [0usize, 1, 2, 31, 32, 33, 34, 1000, 65535] {
+            for extend in [0, 1, 2, 3] {
+                for same in [0, 1] {
+                    if !thorough && (extend + same + stops) % 2 == 1 && stops != 32 {
+                        continue;
+                    }
+                    v.push(job(name, format!("stress colr kind=gradient fmt={fmt} depth={stops} extend={extend} same={same}")));
+                }
+            }
+        }
     }
     v
 }
@@ -551,6 +606,13 @@ pub fn ift2_jobs(thorough: bool) -> Vec<Job> {
                         v.push(job(name, format!("stress ift2 shape={shape} n={n} conj={conj} ign={ign} root={root} fmt={fmt}")));
                     }
                 }
+            }
+        }
+    }
+    for shape in ["chain", "fanin2"] {
+        for n in [1000usize, 10_000] {
+            for (conj, ign, root) in [(0, 1, "miss"), (0, 1, "hit"), (1, 0, "miss"), (1, 2, "hit"), (0, 0, "all")] {
+                v.push(job(name, format!("stress ift2 shape={shape} n={n} conj={conj} ign={ign} root={root} fmt=3 stack=256")));
             }
         }
     }
@@ -843,8 +905,13 @@ pub fn cffhint_jobs(rng: &mut Rng, thorough: bool) -> Vec<Job> {
             let vals: Vec<i32> = (0..k as i32).map(|i| -300 + 17 * i + (i % 2) * 5).collect();
             let mut d = blues_dict(op, &vals);
             if op != [6] {
-                // keep one ordinary BlueValues so that the zones are actually built
-                d.extend_from_slice(&blues_dict(&[6], &[-15, 0, 700, 715]));
+                // keep BlueValues so that the zones are actually built: two zones, or (odd k) all seven, so that
+                // BlueValues + OtherBlues reach the 12 zone slots
+                if k % 2 == 0 {
+                    d.extend_from_slice(&blues_dict(&[6], &[-15, 0, 700, 715]));
+                } else {
+                    d.extend_from_slice(&blues_dict(&[6], &[-15, 0, 400, 410, 450, 460, 500, 510, 550, 560, 600, 610, 700, 715]));
+                }
             }
             for lang in [0, 1] {
                 if lang == 1 && !(thorough || k <= 4 || op == [6]) {
@@ -858,20 +925,59 @@ pub fn cffhint_jobs(rng: &mut Rng, thorough: bool) -> Vec<Job> {
             }
         }
     }
+    // real numbers (BCD) of 30 .. 100 characters (the parse buffer holds 32) in BlueScale / BlueShift / BlueFuzz /
+    // ExpansionFactor, and as operands of BlueValues
+    for digits in [1usize, 29, 30, 31, 32, 33, 34, 100] {
+        for (oi, op) in [&[12u8, 9][..], &[12, 10], &[12, 11], &[12, 18], &[6]].iter().enumerate() {
+            if !thorough && (digits + oi) % 2 == 1 && !(31..=33).contains(&digits) {
+                continue;
+            }
+            let mut d = blues_dict(&[6], &[-15, 0, 700, 715]);
+            let mut push_real = |d: &mut Vec<u8>| {
+                d.push(30);
+                // "0." then digits nibbles, then the end nibble(s)
+                let mut nib: Vec<u8> = vec![0, 0xA];
+                for k in 0..digits {
+                    nib.push((k % 10) as u8);
+                }
+                nib.push(0xF);
+                if nib.len() % 2 == 1 {
+                    nib.push(0xF);
+                }
+                for pair in nib.chunks(2) {
+                    d.push(pair[0] << 4 | pair[1]);
+                }
+            };
+            push_real(&mut d);
+            if *op == [6] {
+                push_real(&mut d);
+            }
+            d.extend_from_slice(op);
+            push(&mut v, format!("bcd:op{}:digits{digits}", op.iter().map(|b| b.to_string()).collect::<Vec<_>>().join(".")), false, &d, &cs_few, 12.0);
+        }
+    }
     // all four blue arrays at / over capacity at once + many stems
     {
-        let mut d = vec![];
-        for (op, k) in [(&[6u8][..], 16usize), (&[7], 12), (&[8], 16), (&[9], 12), (&[12, 12], 14), (&[12, 13], 14)] {
-            let vals: Vec<i32> = (0..k as i32).map(|i| -400 + 60 * i + (i % 2) * 9).collect();
-            d.extend_from_slice(&blues_dict(op, &vals));
-        }
         let stems: Vec<Stem> = (0..96).map(|i| if i % 7 == 0 { Stem::GhostTop } else { Stem::Pair(5) }).collect();
         let mut cs = stems_charstring(&stems, -380, 4, 1);
         tail_path(&mut cs);
-        push(&mut v, "blues:all-arrays-over-capacity".into(), false, &d, &cs, 13.0);
+        for (nb, no) in [(14usize, 10usize), (14, 12), (14, 14), (16, 12), (16, 40), (12, 12), (14, 11), (100, 100)] {
+            for cff2 in [false, true] {
+                let mut d = vec![];
+                for (op, k) in [(&[6u8][..], nb), (&[7], no), (&[8], nb), (&[9], no), (&[12, 12], 14), (&[12, 13], 14)] {
+                    let vals: Vec<i32> = (0..k as i32).map(|i| -400 + 30 * i + (i % 2) * 9).collect();
+                    d.extend_from_slice(&blues_dict(op, &vals));
+                }
+                let mut cs2 = cs.clone();
+                if cff2 {
+                    cs2.pop();
+                }
+                push(&mut v, format!("blues:all-arrays:b{nb}:o{no}"), cff2, &d, &cs2, 13.0);
+            }
+        }
     }
     // --- random stem soups (overlapping, unordered, inverted, duplicated) with random masks
-    let n_rand = if thorough { 1500 } else { 150 };
+    let n_rand = if thorough { 3000 } else { 500 };
     for i in 0..n_rand {
         let n = *rng.pick(&[30usize, 47, 48, 49, 60, 95, 96, 97, 110]);
         let stems: Vec<Stem> = (0..n)
@@ -967,6 +1073,10 @@ pub fn glyfnest_jobs(thorough: bool) -> Vec<Job> {
     }
     for n in [1usize, 2, 32, 33, 34, 1000, 60_000] {
         v.push(job(name, format!("stress glyfnest shape=cycle n={n}")));
+    }
+    for n in [32usize, 1000, 5000] {
+        v.push(job(name, format!("stress glyfnest shape=chain n={n} stack=256")));
+        v.push(job(name, format!("stress glyfnest shape=cycle n={n} stack=256")));
     }
     // component counts: 21845 x 3 points = 65535 points (MAX_POINTS)
     for n in [1usize, 2, 255, 256, 257, 4096, 21_843, 21_844, 21_845, 21_846, 65_535] {
@@ -1077,6 +1187,13 @@ pub fn cffsubr_jobs(thorough: bool) -> Vec<Job> {
                     }
                     v.push(job(name, format!("stress cffsubr depth={d} kind={kind} cff2={cff2} cyc={cyc}")));
                 }
+            }
+        }
+    }
+    for kind in ["global", "local", "alt"] {
+        for cff2 in [0, 1] {
+            for (d, cyc) in [(10usize, 0), (1000, 0), (1000, 1), (5000, 0)] {
+                v.push(job(name, format!("stress cffsubr depth={d} kind={kind} cff2={cff2} cyc={cyc} stack=256")));
             }
         }
     }
@@ -1250,6 +1367,21 @@ pub fn ttlimit_jobs(rng: &mut Rng, thorough: bool) -> Vec<Job> {
             }
         }
     }
+    // function / instruction definitions whose body is around MAX_DEFINITION_SIZE = 65535 bytes
+    for body_len in [65_533usize, 65_534, 65_535, 65_536, 70_000] {
+        for idef in [false, true] {
+            let mut sp = Synth { max_stack: 16, n_funcs: 2, n_idefs: 2, n_cvt: 0, n_pts: 4, max_storage: 0, max_twilight: 0, fpgm: vec![], prep: vec![], glyph: None };
+            let mut f = vec![];
+            super::push_val(&mut f, if idef { 0x91 } else { 0 });
+            f.push(if idef { 0x89 } else { 0x2C });
+            f.extend(std::iter::repeat(0x4Fu8).take(body_len)); // DEBUG: a no-op
+            f.push(0x2D);
+            sp.fpgm = f;
+            sp.prep = if idef { vec![0x91] } else { vec![0xB0, 0, 0x2B] };
+            sp.glyph = Some(if idef { vec![0x91, 0x91] } else { vec![0xB0, 0, 0x2B, 0xB0, 0, 0x2B] });
+            v.push(job(name, format!("{} {}", super::synth_line("hostile", &sp), 11)));
+        }
+    }
     // all maxp fields at 0 and at 65535 at once, benign programs
     for m in [0u16, 65535] {
         let sp = Synth { max_stack: m, n_funcs: m, n_idefs: m, n_cvt: m, n_pts: 6, max_storage: m, max_twilight: m, fpgm: vec![], prep: vec![0xB0, 0, 0x21], glyph: Some(vec![0xB0, 1, 0x21, 0x7F]) };
@@ -1304,8 +1436,10 @@ fn shape_font(kind: &str, contours: usize, pts: usize) -> Result<Vec<u8>, String
                 let x = 20 * t;
                 p.push(CurvePoint::on_curve(clamp(x), 0));
                 p.push(CurvePoint::on_curve(clamp(x), 700));
-                p.push(CurvePoint::on_curve(clamp(x + 10), 700));
-                p.push(CurvePoint::on_curve(clamp(x + 10), 0));
+                // tooth widths 4 .. 17: more distinct stem widths than MAX_WIDTHS = 16
+                let w = 4 + (t * 5) % 14;
+                p.push(CurvePoint::on_curve(clamp(x + w), 700));
+                p.push(CurvePoint::on_curve(clamp(x + w), 0));
             }
             while p.len() < pts {
                 p.push(CurvePoint::on_curve(clamp(20 * teeth + p.len() as i64 % 7), -50));
@@ -1573,11 +1707,15 @@ fn strings_case(p: &Params) -> String {
             if fmt1 {
                 be16(&mut t, n as u16);
                 for i in 0..n {
-                    be16(&mut t, 6);
-                    be16(&mut t, (i % 11) as u16);
+                    // language tags (UTF-16BE) of 0 .. 128 characters: MAX_INLINE_LANGUAGE_LEN = 30
+                    be16(&mut t, [6u16, 0, 58, 60, 62, 64, 2, 256, 20, 20, 20][i % 11]);
+                    be16(&mut t, (i % 11) as u16 * 2);
                 }
             }
             t.extend_from_slice(&[0, 0x41, 0xD8, 0x3D, 0xDE, 0x00, 0, 0x42, 0xDC, 0x00, 0, 0x43, 0xFF, 0xFF, 0, 0x44, 0, 0x45, 0, 0x46]);
+            for i in 0..160u8 {
+                t.extend_from_slice(&[0, if i % 9 == 8 { b'-' } else { b'a' + i % 26 }]);
+            }
             tables.push((*b"name", t));
         }
         "post" => {
@@ -1925,4 +2063,249 @@ pub fn iftapply_jobs(thorough: bool) -> Vec<Job> {
         v.push(job(name, "stress iftapply kind=gk n=1000000 wide=1 tables=1 dec=noop".into()));
     }
     v
+}
+
+// ------------------------------------------------------------------------------------------------
+// GSUB contextual lookup nesting (autohinter style coverage: skrifa autohint/shape.rs GsubHandler, limit 64)
+// ------------------------------------------------------------------------------------------------
+
+/// GSUB with script `latn` + `DFLT`, one feature and `n` contextual format 3 lookups (no input glyphs, one or two
+/// nested lookup records): chain i -> i+1, cycle, dag2 (i -> i+1 and i+2), self (i -> i)
+fn gsub_table(shape: &str, n: usize, all_in_feature: bool) -> Vec<u8> {
+    let n = n.clamp(1, 2900);
+    let mut t: Vec<u8> = vec![];
+    be16(&mut t, 1);
+    be16(&mut t, 0);
+    be16(&mut t, 10); // script list
+    let script_list_len = 2 + 2 * 6 + 4 + 8;
+    be16(&mut t, 10 + script_list_len as u16); // feature list
+    let listed = if all_in_feature { n } else { 1 };
+    let feature_list_len = 2 + 6 + 4 + 2 * listed;
+    be16(&mut t, (10 + script_list_len + feature_list_len) as u16); // lookup list
+    // ScriptList: DFLT + latn share one Script table
+    be16(&mut t, 2);
+    t.extend_from_slice(b"DFLT");
+    be16(&mut t, 14);
+    t.extend_from_slice(b"latn");
+    be16(&mut t, 14);
+    be16(&mut t, 4); // Script: defaultLangSys at 4
+    be16(&mut t, 0);
+    be16(&mut t, 0); // LangSys
+    be16(&mut t, 0xFFFF);
+    be16(&mut t, 1);
+    be16(&mut t, 0);
+    // FeatureList
+    be16(&mut t, 1);
+    t.extend_from_slice(b"liga");
+    be16(&mut t, 8);
+    be16(&mut t, 0);
+    be16(&mut t, listed as u16);
+    for i in 0..listed {
+        be16(&mut t, i as u16);
+    }
+    // LookupList
+    let recs = |i: usize| -> Vec<u16> {
+        match shape {
+            "cycle" => vec![((i + 1) % n) as u16],
+            "dag2" => vec![(i + 1).min(n - 1) as u16, (i + 2).min(n - 1) as u16],
+            "self" => vec![i as u16],
+            "past" => vec![(i + 1) as u16], // the last one refers past the end of the list
+            _ => {
+                if i + 1 < n {
+                    vec![(i + 1) as u16]
+                } else {
+                    vec![]
+                }
+            }
+        }
+    };
+    be16(&mut t, n as u16);
+    let mut off = 2 + 2 * n;
+    for i in 0..n {
+        be16(&mut t, off.min(65535) as u16);
+        off += 14 + 4 * recs(i).len();
+    }
+    for i in 0..n {
+        let r = recs(i);
+        be16(&mut t, 5);
+        be16(&mut t, 0);
+        be16(&mut t, 1);
+        be16(&mut t, 8);
+        be16(&mut t, 3);
+        be16(&mut t, 0);
+        be16(&mut t, r.len() as u16);
+        for x in r {
+            be16(&mut t, 0);
+            be16(&mut t, x);
+        }
+    }
+    t
+}
+
+fn gsubnest_case(p: &Params) -> String {
+    let base = match shape_font("rects", 3, 4) {
+        Ok(d) => d,
+        Err(e) => return format!("build-failed {e}"),
+    };
+    let Ok(basef) = FontRef::new(&base) else { return "font-failed".into() };
+    let gsub = gsub_table(p.s("shape"), p.n("n"), p.n("all") == 1);
+    let glen = gsub.len();
+    let mut fb = write_fonts::FontBuilder::new();
+    for rec in basef.table_directory.table_records() {
+        if let Some(d) = basef.table_data(rec.tag()) {
+            fb.add_raw(rec.tag(), d.as_bytes().to_vec());
+        }
+    }
+    fb.add_raw(Tag::new(b"GSUB"), gsub);
+    let bytes = fb.build();
+    let Ok(font) = FontRef::new(&bytes) else { return "font-failed".into() };
+    let mut out = format!("ok gsub={glen}");
+    draw_all_engines(&font, 1, &[16.0], &mut out);
+    out
+}
+
+pub fn gsubnest_jobs(thorough: bool) -> Vec<Job> {
+    let name = "stress-gsub-lookup-nesting-returns-value";
+    let mut v = vec![];
+    let mut sizes = vec![1usize, 2, 63, 64, 65, 66, 1000, 2900];
+    if thorough {
+        sizes.extend_from_slice(&[3, 32, 128, 500, 2000]);
+    }
+    for shape in ["chain", "cycle", "dag2", "self", "past"] {
+        for &n in &sizes {
+            for all in [0, 1] {
+                v.push(job(name, format!("stress gsubnest shape={shape} n={n} all={all}")));
+                if n >= 63 {
+                    v.push(job(name, format!("stress gsubnest shape={shape} n={n} all={all} stack=256")));
+                }
+            }
+        }
+    }
+    v
+}
+
+// ------------------------------------------------------------------------------------------------
+// HintMap::insert correspondence (Model/HintMap.lean) through the verif hook
+// ------------------------------------------------------------------------------------------------
+
+/// child side of `hintmap op op ...` (op = fb:csb:dsb:ft:cst:dst): the real `HintMap::insert` sequence
+pub fn hintmap_child(t: &[&str]) -> String {
+    let mut ops: Vec<[i32; 6]> = vec![];
+    for tok in t {
+        if *tok == "-" {
+            continue;
+        }
+        let v: Vec<i32> = tok.split(':').filter_map(|x| x.parse().ok()).collect();
+        if v.len() != 6 {
+            return "bad-request".into();
+        }
+        ops.push([v[0], v[1], v[2], v[3], v[4], v[5]]);
+    }
+    match catch(|| skrifa::outline::verif_hooks::cff_hint_map_inserts(0x10000 / 64, &ops)) {
+        Ok(edges) => {
+            let es: Vec<String> = edges.iter().map(|e| format!("{}:{}:{}", e[0], e[1], e[2])).collect();
+            format!("len={} {}", edges.len(), if es.is_empty() { "-".to_string() } else { es.join(",") })
+        }
+        Err(_) => "panic".into(),
+    }
+}
+
+/// insert sequences: ascending / descending / shuffled ghosts and pairs filling the map to 93 .. 97 edges and beyond,
+/// then probes at the bottom, in the middle, inside a pair and at the top; random soups with collisions, inverted
+/// pairs, invalid hints, locked flags and device-space disorder
+pub fn hintmap_requests(rng: &mut Rng, n: usize) -> Vec<String> {
+    const GB: i32 = 1;
+    const GT: i32 = 2;
+    const PB: i32 = 4;
+    const PT: i32 = 8;
+    let mut out = vec![];
+    let fmt = |ops: &[[i32; 6]]| -> String {
+        if ops.is_empty() {
+            "hintmap -".to_string()
+        } else {
+            format!("hintmap {}", ops.iter().map(|o| o.iter().map(|x| x.to_string()).collect::<Vec<_>>().join(":")).collect::<Vec<_>>().join(" "))
+        }
+    };
+    for i in 0..n {
+        let mut ops: Vec<[i32; 6]> = vec![];
+        let unit = 0x10000;
+        match i % 4 {
+            0 | 1 => {
+                // structured fill: g ghosts + p pairs, disjoint, then probes
+                let ghosts = rng.below(5) as usize;
+                let target = *rng.pick(&[90usize, 93, 94, 95, 96, 97, 98, 120]);
+                let pairs = target.saturating_sub(ghosts) / 2 + rng.below(2) as usize;
+                let mut stems: Vec<[i32; 6]> = vec![];
+                let mut y = -50 * unit;
+                for k in 0..ghosts + pairs {
+                    let ghost = k < ghosts;
+                    if ghost {
+                        if k % 2 == 0 {
+                            stems.push([GB, y, y / 64, 0, 0, 0]);
+                        } else {
+                            stems.push([0, 0, 0, GT, y, y / 64]);
+                        }
+                        y += 3 * unit;
+                    } else {
+                        stems.push([PB, y, y / 64, PT, y + 4 * unit, (y + 4 * unit) / 64]);
+                        y += 7 * unit;
+                    }
+                }
+                match rng.below(3) {
+                    0 => {}
+                    1 => stems.reverse(),
+                    _ => {
+                        for k in (1..stems.len()).rev() {
+                            let j = rng.below(k as u64 + 1) as usize;
+                            stems.swap(k, j);
+                        }
+                    }
+                }
+                ops.extend(stems);
+                // probes
+                for _ in 0..1 + rng.below(4) {
+                    let py = match rng.below(4) {
+                        0 => -90 * unit,
+                        1 => y + 20 * unit,
+                        2 => -50 * unit + rng.below(600) as i32 * unit + unit / 2,
+                        _ => -50 * unit + rng.below(600) as i32 * unit,
+                    };
+                    if rng.chance(1, 3) {
+                        ops.push([GB, py, py / 64, 0, 0, 0]);
+                    } else {
+                        let w = 1 + rng.below(3) as i32;
+                        ops.push([PB, py, py / 64, PT, py + w * unit / 2, (py + w * unit / 2) / 64]);
+                    }
+                }
+            }
+            _ => {
+                // random soup
+                let k = *rng.pick(&[0usize, 1, 5, 20, 60, 100, 140]);
+                for _ in 0..k {
+                    let a = rng.range(-40, 200) as i32 * unit / 4;
+                    let w = rng.range(-8, 24) as i32 * unit / 4;
+                    let ds = |rng: &mut Rng, cs: i32| -> i32 {
+                        match rng.below(8) {
+                            0 => cs / 64 + rng.range(-3000, 3000) as i32,
+                            1 => rng.range(-200000, 200000) as i32,
+                            _ => cs / 64,
+                        }
+                    };
+                    let lock = if rng.chance(1, 6) { 16 } else { 0 };
+                    let synth = if rng.chance(1, 12) { 32 } else { 0 };
+                    let op = match rng.below(10) {
+                        0 => [GB | lock | synth, a, ds(rng, a), 0, 0, 0],
+                        1 => [0, 0, 0, GT | lock | synth, a, ds(rng, a)],
+                        2 => [0, 0, 0, 0, 0, 0],
+                        3 => [GB, a, ds(rng, a), GT, a + w, ds(rng, a + w)],
+                        4 => [PT, a, ds(rng, a), PB, a + w, ds(rng, a + w)],
+                        _ => [PB | lock, a, ds(rng, a), PT | lock, a + w, ds(rng, a + w)],
+                    };
+                    ops.push(op);
+                }
+            }
+        }
+        out.push(fmt(&ops));
+    }
+    out
 }
